@@ -116,6 +116,15 @@ def step (_ : Unit) (toks : List Val) (_impl : String) : Unit × Out :=
                tags := [s!"fill.iters={iters}"] })
       | .error e => ((), { model := e, tags := ["fill.panic"] })
     | none => bad
+  | [.w "fillz", .i n, .i _kind] =>   -- Fill/Repeat at other element types (glue: per element "is the value filled in")
+    if n < 0 then unmodelled "fillz.neg"
+    else
+      let xs := List.replicate n.toNat (0 : Int)
+      let (h, s) := mkArg xs 0
+      match Model.Splice.fillIters h s 1 with
+      | .ok (h', _) =>
+        ((), { model := (ofInts (contents h' s)).render, spec := some (ofInts (Spec.Splice.fill xs 1)).render, tags := ["fillz"] })
+      | .error e => ((), { model := e, tags := ["fill.panic"] })
   | [.w "repeat", .i v, .i n] =>
     if n < 0 then unmodelled "repeat.neg"
     else
